@@ -1,4 +1,4 @@
 SPECIFICATION TraceSpec
 POSTCONDITION TraceAccepted
 CHECK_DEADLOCK FALSE
-CONSTANT CheckLoads = FALSE
+CONSTANT CheckLoads = TRUE
